@@ -286,6 +286,7 @@ type workerOut struct {
 	done     bool
 	fatal    string
 	races    int
+	sdkRaces int
 	raceLog  string
 }
 
@@ -388,8 +389,9 @@ func ParentMain(p Prop, tier string, extraArgs []string) int {
 		lf.Close()
 		wo := readWorkerOut(out)
 		if lb, err := os.ReadFile(logp); err == nil {
-			if n := strings.Count(string(lb), "WARNING: DATA RACE"); n > 0 {
+			if n, sdk := countRaces(string(lb)); n+sdk > 0 {
 				wo.races = n
+				wo.sdkRaces = sdk
 				keep := filepath.Join(root, "replays", fmt.Sprintf("%s-%s-seed%d-worker%s-race.log", p.ID(), tier, seed, tag))
 				_ = os.MkdirAll(filepath.Dir(keep), 0o755)
 				if len(lb) > 400000 {
@@ -430,6 +432,13 @@ func ParentMain(p Prop, tier string, extraArgs []string) int {
 				all = append(all, r)
 				planned1 := 1
 				_ = planned1
+			}
+			if wo.sdkRaces > 0 {
+				// SDK-only reports: noted in the evidence, not a verdict on this property
+				r := CaseResult{Case: fmt.Sprintf("worker-%d-sdk-races", s), Idx: 1<<30 + 64 + s, Hash: fmt.Sprintf("sdk-race-%d", s)}
+				r.AddStat("race_reports_inside_the_go_sdk_only_not_judged", int64(wo.sdkRaces))
+				r.Notes = append(r.Notes, fmt.Sprintf("%d race report(s) between goroutines of client.Client and the application goroutine (no server frame): outside the property; log %s", wo.sdkRaces, wo.raceLog))
+				all = append(all, r)
 			}
 			if wo.fatal != "" && wo.fatal != "watchdog" {
 				fatals = append(fatals, wo.fatal)
@@ -511,19 +520,40 @@ func ParentMain(p Prop, tier string, extraArgs []string) int {
 	return report(p, tier, seed, all, inconclusive, start, n, witnessed)
 }
 
+// countRaces counts the race detector's reports in a worker log. A report whose stacks run
+// through the Go SDK (/repo/client/) and through no server code at all is a race between
+// the SDK's own goroutines (its sync / watch loops) and the application goroutine: real,
+// but on the client side, which none of the properties checked here speaks about (they
+// concern the server's pipeline and pub/sub). Such reports are counted apart and noted, not
+// raised as a violation of the property under check.
+func countRaces(log string) (server, sdkOnly int) {
+	for _, blk := range strings.Split(log, "==================") {
+		if !strings.Contains(blk, "WARNING: DATA RACE") {
+			continue
+		}
+		if strings.Contains(blk, "/repo/client/") && !strings.Contains(blk, "/repo/server/") {
+			sdkOnly++
+		} else {
+			server++
+		}
+	}
+	return server, sdkOnly
+}
+
 func firstRace(path string) string {
 	b, err := os.ReadFile(path)
 	if err != nil {
 		return ""
 	}
-	s := string(b)
-	i := strings.Index(s, "WARNING: DATA RACE")
-	if i < 0 {
-		return ""
+	s := ""
+	for _, blk := range strings.Split(string(b), "==================") {
+		if strings.Contains(blk, "WARNING: DATA RACE") && !(strings.Contains(blk, "/repo/client/") && !strings.Contains(blk, "/repo/server/")) {
+			s = blk[strings.Index(blk, "WARNING: DATA RACE"):]
+			break
+		}
 	}
-	s = s[i:]
-	if j := strings.Index(s, "=================="); j > 0 {
-		s = s[:j]
+	if s == "" {
+		return ""
 	}
 	if len(s) > 3000 {
 		s = s[:3000]
